@@ -788,6 +788,7 @@ func C09(c *Ctx) {
 	c.R.Rule("C09-R6", "E6", "state readers decode numbers the way the matcher knows them (float64)", 1)
 	c09Readers(c)
 	c.shareRule("C15", "C15-R14", "C09-R14", "what can be reloaded is what was reached: no state is withheld from the report for its size or any other reason")
+	c.shareRule("C15", "C15-R15", "C09-R15", "reloading is unobservable: the host's way of restoring a machine installs the state that was written out, with nothing added")
 	c.R.Rule("C09-R13", "E5", "a message a host coupling builds is plain JSON data", 3)
 	c09HostMadeMessages(c, "C09-R13")
 	c.R.Rule("C09-R11", "E1", "the crew keeps nothing about a machine outside its reported state", 1)
